@@ -5,7 +5,7 @@
    window goroutine yields this sequence; the quantification over interleavings is the
    quantification over h (all interleavings of the keys' rows). No reap step (STATETTL). *)
 From Coq Require Import Permutation.
-From SV Require Import Model.GroupKey Model.Counting Proofs.GroupKeyProofs Proofs.CountingProofs.
+From SV Require Import Model.GroupKey Model.Counting Spec.GroupSpec Proofs.GroupKeyProofs Proofs.CountingProofs.
 
 (* the i-th batch (i = 0, 1, ..) delivered for the key tuple t is exactly rows i*N+1 .. (i+1)*N of
    t's subsequence, in order, and there is an i-th batch only if t has (i+1)*N rows *)
@@ -62,6 +62,15 @@ Theorem C09_conservation : forall n h,
   Permutation (concat (map snd (cw_run n h)) ++ all_rows (fst (cw_steps cnt_key n [] h))) h.
 Proof. exact counting_conservation. Qed.
 Print Assumptions C09_conservation.
+
+(* the declarative N-blocks the extracted checker chk_C09 demands of the implementation (clause
+   ith_batch, Spec/GroupSpec.v [chunks]) are exactly what the model delivers for every key *)
+Theorem C09_model_meets_checker_blocks : forall n c h t, 1 <= n ->
+  Forall (fun r => length (kvals r) = c) h -> length t = c ->
+  map (map krid) (kbatches_of (tuple_key s_global t) (cw_run n h))
+  = let ids := map krid (krows_of t h) in chunks (length ids) n ids.
+Proof. exact counting_matches_spec_blocks. Qed.
+Print Assumptions C09_model_meets_checker_blocks.
 
 (* non-vacuity: N = 2, keys a b a a b interleaved: a -> [1;3], b -> [2;5]; row 4 stays buffered *)
 Example C09_example :
